@@ -91,6 +91,27 @@ def check(tree, rep, tier='quick', seed=0):
         fv, found = ip.ns_lookup(ns, 'figure_tax', rel)
         if not found or not isinstance(fv, Closure) or not isinstance(fv.node, ast.FunctionDef):
             raise AnalysisError(f'{rel}: figure_tax is not a module-level function')
+        # D0: the helpers must be functions of their arguments only
+        impure = []
+        mod = tree.module(rel)
+        for fn in [x for x in mod.body if isinstance(x, ast.FunctionDef)]:
+            for x in ast.walk(fn):
+                if isinstance(x, (ast.Global, ast.Nonlocal)):
+                    impure.append((fn.name, f'{type(x).__name__.lower()} {", ".join(x.names)}', x.lineno))
+                if isinstance(x, (ast.Assign, ast.AugAssign)):
+                    for t in (x.targets if isinstance(x, ast.Assign) else [x.target]):
+                        if isinstance(t, (ast.Attribute, ast.Subscript)):
+                            impure.append((fn.name, f'store to {ast.unparse(t)}', x.lineno))
+                if isinstance(x, ast.Call) and isinstance(x.func, ast.Attribute) and x.func.attr in ('append', 'update', 'setdefault', 'pop', 'clear', 'add') \
+                        and isinstance(x.func.value, ast.Name) and x.func.value.id.isupper() or (isinstance(x, ast.Call) and isinstance(x.func, ast.Attribute)
+                                                                                            and x.func.attr in ('setdefault', 'update') and isinstance(x.func.value, ast.Name) and x.func.value.id.startswith('_')):
+                    impure.append((fn.name, f'mutation {ast.unparse(x.func)}()', x.lineno))
+            if any(isinstance(d, (ast.Name, ast.Attribute, ast.Call)) for d in fn.decorator_list):
+                impure.append((fn.name, 'decorated (e.g. a cache): results may depend on earlier calls', fn.lineno))
+        rep.ob('D0', f'{y}/figure_tax-is-a-function-of-its-arguments', not impure,
+               f'the tax helpers of {y} keep state between calls: {impure[:3]}; the tax for an income could depend on what was looked up before', rel)
+        if impure:
+            continue
         f1040 = cat.find(y, '1040')
         fs = f1040.input_map().get('filing_status') if f1040 else None
         if fs is None or not isinstance(fs.attrs.get('enum'), EnumV):
